@@ -316,4 +316,56 @@ theorem postInitGen_eq (count : Option Int) (start end_ c2c total : Option Rat) 
   cases count <;> cases start <;> cases end_ <;> cases c2c <;> cases total <;>
     simp [postInitGen, CBV.Gen.c03PostInit, postInit, fieldQ, Q.ofString?, Vals.setOpt, List.mapM_cons, List.filter]
 
+/-! ### `Chop.copy_preserving` interpreted from what the source says now -/
+
+theorem floor_natCast_toNat (n : ℕ) : ((n : ℚ)).floor.toNat = n := by
+  have h : ((n : ℚ)).floor = (n : ℤ) := by
+    apply le_antisymm
+    · have := Rat.floor_le (n : ℚ)
+      have h2 : (((n : ℚ).floor : ℤ) : ℚ) ≤ ((n : ℤ) : ℚ) := by simpa using this
+      exact Int.cast_le.mp h2
+    · exact Rat.le_floor_iff.mpr (by simp)
+  rw [h]; simp
+
+/-- `Chop.copy_preserving(inverted)` as the translated tables describe it: the arguments start as the chop's *own current
+    fields* (`dataclasses.asdict(self)`), `args[k1] = results[k2]`, every key of `cleared` is set to `None`, the preserved
+    quantity is taken from `results`, the new chop goes through `__post_init__` (`postInitGen` on `initTbl`), and is
+    inverted when asked (`doInvert`) -/
+def copyGen (tbl : (String × String) × List String × Bool)
+    (initTbl : List String × Nat × (String × Nat) × (String × Nat)) (ob : Obj) (inverted : Bool) : Except Err Vals :=
+  match ob.last with
+  | none => .error .unmodelled
+  | some res =>
+      match tbl with
+      | ((k1, k2), cleared, doInvert) =>
+          if k1 ≠ "count" ∨ k2 ≠ "count" then .error .table
+          else
+            match cleared.mapM fieldQ, res.count, res.get ob.preserve with
+            | none, _, _ => .error .table
+            | some qs, some n, some x =>
+                let a1 : Vals := qs.foldl (fun v q => v.setOpt q none) ob.params
+                let a2 : Vals := a1.setOpt ob.preserve (some x)
+                match postInitGen initTbl (some (n : Int)) a2.start a2.end_ a2.c2c a2.total with
+                | some c => if inverted && doInvert then invert c else pure c
+                | none => .error .table
+            | some _, _, _ => .error .unmodelled
+
+theorem copyGen_eq (ob : Obj) (inverted : Bool)
+    (hn : ∀ res n, ob.last = some res → res.count = some n → 1 ≤ n) :
+    copyGen CBV.Gen.c03CopyPreserving CBV.Gen.c03PostInit ob inverted = copyPreserving ob inverted := by
+  obtain ⟨params, preserve, last⟩ := ob
+  cases last with
+  | none => rfl
+  | some res =>
+    obtain ⟨cn, cs, ce, cc, cT⟩ := res
+    cases cn with
+    | none => cases preserve <;> simp [copyGen, CBV.Gen.c03CopyPreserving, copyPreserving, fieldQ, Q.ofString?, Vals.get]
+    | some n =>
+      have hn1 : 1 ≤ n := hn _ n rfl rfl
+      have hmax : max n 1 = n := by omega
+      have hmaxI : max (n : ℤ) 1 = (n : ℤ) := by omega
+      cases preserve <;> cases cs <;> cases ce <;> cases cc <;> cases cT <;>
+        simp [copyGen, CBV.Gen.c03CopyPreserving, copyPreserving, fieldQ, Q.ofString?, Vals.get, List.foldl, Vals.setOpt,
+          postInitGen_eq, postInit, Vals.assign, hmax, hmaxI, floor_natCast_toNat]
+
 end CBV.C03
